@@ -594,8 +594,51 @@ def run_c19(rnd, tier, v, stats):
         sent_paths = [ln.split(b" ")[1].decode() for ln in bytes(cs.wire).split(b"\r\n") if ln.endswith(b" HTTP/1.1")]
         if sent_paths != [r["path"] for r in reqs]:
             v("C19/transmit-order", inp, sent_paths, [r["path"] for r in reqs])
+    # several queued requests, some redirected: histories are inspected AFTER everything was answered (entries must not share state)
+    for it in range(20 if tier == "quick" else 200):
+        n = rnd.randint(2, 4)
+        redir = [rnd.random() < 0.5 for _ in range(n)]
+        cs = FakeSock([])
+        conn = tcp.Client(ha=("127.0.0.1", 8080))
+        conn.cs, conn.accepted = cs, True
+        cl = clienting.Client(connector=conn)
+        for k in range(n):
+            cl.request(method="GET", path="/q%d" % k)
+        inp = dict(scenario="queued requests with redirects, drained at the end", redirected=redir)
+        served = 0
+        try:
+            for step in range(60 * n):
+                cl.service()
+                wire = bytes(cs.wire)
+                lines = [ln for ln in wire.split(b"\r\n") if ln.endswith(b" HTTP/1.1")]
+                while served < len(lines):
+                    pth = lines[served].split(b" ")[1].decode()
+                    if pth.startswith("/q") and redir[int(pth[2:])]:
+                        cs.script.append(b"HTTP/1.1 307 Temporary Redirect\r\nLocation: http://127.0.0.1:8080/moved%s\r\nContent-Length: 0\r\n\r\n" % pth[2:].encode())
+                    else:
+                        body = ("body-" + pth).encode()
+                        cs.script.append(b"HTTP/1.1 200 OK\r\nContent-Length: %d\r\n\r\n" % len(body) + body)
+                    served += 1
+                if len(cl.responses) == n:
+                    break
+        except Exception as ex:   # noqa
+            v("C19/client-raised", inp, repr(ex)[:160])
+            continue
+        stats["evals"] += 1
+        if len(cl.responses) != n:
+            v("C19/response-count", inp, len(cl.responses), n)
+            continue
+        for k, rsp in enumerate(list(cl.responses)):
+            hist = [r["request"]["path"] for r in (rsp.get("redirects") or [])]
+            exp_hist = ["/q%d" % k] if redir[k] else []
+            exp_body = ("body-/moved%d" % k if redir[k] else "body-/q%d" % k).encode()
+            if hist != exp_hist or bytes(rsp["body"]) != exp_body:
+                v("C19/redirect-history-or-body-wrong-after-later-requests", dict(inp, index=k), dict(history=hist, body=bytes(rsp["body"])), dict(history=exp_hist, body=exp_body))
+                break
     # redirects: followed transparently with history; https -> http refused
-    for frm, to, allowed in (("http", "http://127.0.0.1:8080/new", True), ("https", "http://127.0.0.1:8080/new", False)):
+    for frm, to, allowed in (("http", "http://127.0.0.1:8080/new", True), ("https", "http://127.0.0.1:8080/new", False),
+                             ("http", "/new", True), ("http", "new", True), ("https", "/new", True), ("http", "//127.0.0.1:8080/new", True),
+                             ("http", "/new?a=1", True)):
         cs = FakeSock([])
         conn = tcp.Client(ha=("127.0.0.1", 8080))
         conn.cs, conn.accepted = cs, True
@@ -613,7 +656,7 @@ def run_c19(rnd, tier, v, stats):
         except ValueError:
             refused = True
         except Exception as ex:   # noqa
-            v("C19/redirect-raised", dict(frm=frm, to=to), repr(ex)[:120])
+            v("C19/redirect-raised", dict(frm=frm, to=to, witness_class="relative-location" if "://" not in to else "absolute-location"), repr(ex)[:120])
             continue
         if allowed:
             if refused or not cl.responses or not cl.responses[0].get("redirects"):
